@@ -36,6 +36,7 @@ RULE = (
     "non-trivial = the individual has a known parent or a child; distinct by hash of (instance id, state, move parameters)"
 )
 LEVEL_TEXT += " Also observed: the exact kernel of the whole sample_step (nu P = nu); at program level the pedigree arrays (parents, gamete ploidy, lambda, error, ploidy, each sample's own reads) reaching the sampler and the PEDERR computation inside mchap call-pedigree equal arrays rebuilt from the user's files (shuffled lines, per-gamete values all different, BAM-less parents)."
+LEVEL_TEXT += ' Session 4: selfing parental pairs are decided by the swap monitor; unknown-parent edges carry arbitrary user error rates including 0.'
 ASSUMPTIONS = ["states of zero joint probability are unreachable and skipped", "allele frequencies strictly positive"]
 TOL = 1e-9
 
